@@ -132,6 +132,8 @@ func (e *Engine) intrinsic(st *State, fn *ssa.Function, full string, args []Valu
 			return nil, true
 		case "vfYield":
 			return nil, true
+		case "vfPrune":
+			panic(&PruneCase{})
 		case "vfSameObject":
 			// do two byte slices denote the same region?
 			a, _ := args[0].(SliceV).P.single()
